@@ -28,6 +28,22 @@ CHECKS = {
             'C15_independent: a load does not depend on residue of earlier loads (context.__init__ overwrites the per-thread fields); C15_top_only: an opt-in top-level object without opt-in descendants receives exactly the patches, for any patches and fields; C15_counterexample / C15_delivery_false / C15_counterexample_exit prove that delivery is positional in the current code. Each run compares the model with real loads over graphs x nested patch dicts, checks the property on every reachable object, replays failing loads (truncated stream, raising __setstate__, assertion) followed by normal loads on one thread, and runs 4 threads concurrently.',
             'Partial: the delivery clause is false for non-chain graphs (two KNOWN-FINDING classes); the general chain-delivery theorem is not proved yet (chains are covered by correspondence only). threading.local semantics trusted.',
             '§7 C15'),
+    'C01': ('Lean 4 proof over run-loop programs REGENERATED from /repo on every run (complete landing-point tables decided by kernel evaluation; induction for the accessor cache) + real-code injection at every landing point',
+            'The child-side run functions of the six classes are translated from the Python AST into a small statement language on every run (Gen/RunLoops.lean); C01_shape_thread/_process/_remote decide, for every target behaviour, every kind of asynchronous event (exception at the line, real terminate through the control thread, SIGKILL) and every landing point of the run, that the parent-side decode yields one of the two shapes and never has_error=None; C01_definite_thread_process and C01_stable/C01_drain_definite (induction over accessor sequences, any pipe content incl. undecodable/truncated messages) give definiteness and stability. The semantics is validated each run against real workers: traced line events and the post-mortem observation must agree at every landing point exercised (hook-raised exception, real terminate() arriving at that line, SIGKILL at that line), plus undecodable exceptions, kill while sending 8 MB, and a delayed frontend thread.',
+            'Partial for the persistent kinds (their loops are unbounded: outcome shape covered by correspondence, streams by C05/C06). Trusted: Lean kernel + standard axioms; the translator pattern table (validated by the line-event correspondence); E-L1 (trace-hook delivery = asynchronous delivery at that line). Main-script-defined classes not exercised.',
+            '§7 C01'),
+    'C03': ('Lean 4 proof over regenerated run-loop programs (complete landing tables by kernel evaluation; counterexample theorems for the handler window) + real terminate() landed at every line event',
+            'C03_in_target_* : a request landing while the target runs is reported as WorkerTerminatedError; C03_dichotomy_* : at every reachable landing point outside the run loop\'s own except handlers the outcome is either "terminated" or exactly what the worker reports when left alone; C03_full_remote: for the remote backend this holds everywhere; C03_counterexample_thread/_process: the full dichotomy is false on the current code (known finding). Every run lands a real terminate() (and, for threads, a hook-raised exception) at each line event of the six real workers and checks trace, return value of terminate, outcome, and that a try/finally inside the target runs.',
+            'Partial: persistent loops by correspondence only; delivery latency between the control thread taking the request and raising is not modelled (a request is delivered at the landing point itself). Known finding: handler window.',
+            '§7 C03'),
+    'C07': ('executable Lean model of Pool.run\'s bookkeeping + model/implementation correspondence on the real Pool.run driven by fake workers (seeded scripts + exhaustive DFS of small configurations); invariant proofs in progress',
+            'PwVerif.Pool models next_inputs / try_enqueue / handle_death (incl. its nested re-dispatch loop) / handle_new_result / first_enqueue / the event loop against an adversary (work, die with marker or EOF, poll batches, pre-run deaths, refusing enqueue_fn). Every run drives the REAL Pool.run deterministically with the same scripts and diffs outcome, result list, enqueue sequence and closed set; the property oracle (no internal error, no livelock, exactly-once results, no deadlock while something is enabled) is evaluated on every real leaf, and small configurations are explored exhaustively.',
+            'The unbounded invariant theorems (conservation, FIFO agreement) are not finished: the Lean side currently contributes the executable model and witness theorems; assurance for all schedules beyond the explored ones rests on the correspondence. Known finding: enqueue_fn refusal livelock. Fake workers implement assumption E-Q1.',
+            '§7 C07'),
+    'C08': ('same model and driver as C07 with the failure-report oracle',
+            'PoolError only with every worker dead or closed; partial/normal results duplicate-free subsets of the inputs; with retry off every missing input was handed to a worker that died - evaluated on every real leaf of the seeded and exhaustive script exploration, retry on/off, return_results on/off, pre-run deaths, poison inputs.',
+            'As C07. Known finding: with retry off an input refused by the user enqueue_fn is dropped silently.',
+            '§7 C08'),
 }
 NOT_YET = 'check not built yet in this session (work in progress; see DESIGN.md §13 for the order)'
 
